@@ -104,6 +104,7 @@ class Spec:
         self.abstract_comprehensions = set()   # (qualname, ordinal) whose value is Untracked
         self.truthy_classes = set()            # Obj class tags whose instances are always truthy (e.g. re.Match)
         self.stop = None                       # (qualname, lineno, callback(I, frame)): verify a prefix of a long function
+        self.while_bound = {}                  # qualname -> unwinding bound for while loops with symbolic guards
         self.order_keys = {}                   # Obj class tag -> UF(Obj) -> Int giving a total order (e.g. dates by ordinal)
 
 
@@ -721,7 +722,16 @@ class Interp:
         while True:
             c = self.truthy(self.eval(s.test, fr))
             if not isinstance(c, bool):
-                raise Unsupported('while with symbolic guard at %d' % s.lineno)
+                # symbolic guard: unrolled up to the bound the contract states, with an unwinding assertion
+                # (complete when the assertion is discharged; otherwise the obligation is refuted/undecided)
+                bound = self.spec.while_bound.get(fr.fi.qualname)
+                if bound is None:
+                    raise Unsupported('while with symbolic guard at %d (no unwinding bound in the contract)' % s.lineno)
+                if n >= bound:
+                    self.ctx.check('unwind.%s@%d' % (fr.fi.qualname.split('.')[-1], s.lineno), z3.Not(c), 'auxiliary')
+                    self.ctx.assume(z3.Not(c))
+                    break
+                c = self.ctx.branch(c, 'while@%d:%d' % (s.lineno, n))
             if not c:
                 break
             n += 1
